@@ -27,7 +27,7 @@ type c02Case struct {
 
 var (
 	c02Owners     = []string{"A", "P", "S", "SP"}
-	c02Flows      = []string{"code", "oidc", "hyb-idt", "par", "par-extra-redirect"}
+	c02Flows      = []string{"code", "oidc", "hyb-idt", "par", "par-extra-redirect", "dup-redirect-param"}
 	c02Positions  = []string{"fresh", "after-other-grant", "after-refresh-chain", "after-revocation"}
 	c02Presenters = []string{"owner", "foreign-confidential", "foreign-public", "owner-wrong-secret"}
 	c02Redirs     = []string{"equal", "absent", "other-registered", "percent-encoded", "host-case", "trailing-slash", "with-fragment", "unregistered", "query-added"}
@@ -62,6 +62,7 @@ func c02Run(c c02Case, res *WRes) {
 		w.Revoke(o.Str("access_token"), "", w.AuthFor("B"))
 	}
 	regURI := "https://" + c.Owner + ".example/cb"
+	dupOther := ""
 	params := url.Values{"client_id": {c.Owner}, "state": {"state-12345678"}, "response_type": {"code"}, "scope": {"offline a"}, "audience": {"https://api.example/a"}}
 	if carried {
 		params.Set("redirect_uri", regURI)
@@ -91,7 +92,22 @@ func c02Run(c c02Case, res *WRes) {
 		opts.GrantAud = func(req []string) []string { return without(req, "https://other.example") }
 	}
 	var ao *Obs
-	if strings.HasPrefix(c.Flow, "par") {
+	if c.Flow == "dup-redirect-param" {
+		// redirect_uri is sent twice, naming two different registered URIs: whichever the server delivers the code
+		// to is the one the code must be bound to
+		if !carried {
+			return
+		}
+		params["redirect_uri"] = []string{regURI, "https://" + c.Owner + ".example/cb2"}
+		ao = w.Authorize(params, opts)
+		switch {
+		case strings.HasPrefix(ao.Location, "https://"+c.Owner+".example/cb2?"):
+			regURI = "https://" + c.Owner + ".example/cb2"
+			dupOther = "https://" + c.Owner + ".example/cb"
+		case strings.HasPrefix(ao.Location, regURI+"?"):
+			dupOther = "https://" + c.Owner + ".example/cb2"
+		}
+	} else if strings.HasPrefix(c.Flow, "par") {
 		// the authorization request is pushed; the front channel carries client_id + request_uri only
 		// (par-extra-redirect: plus another registered redirect_uri, which must not re-bind the code)
 		po := w.PAR(params, w.AuthFor(c.Owner))
@@ -139,6 +155,9 @@ func c02Run(c c02Case, res *WRes) {
 	case "absent":
 	case "other-registered":
 		form.Set("redirect_uri", "https://"+c.Owner+".example/cb2")
+		if dupOther != "" {
+			form.Set("redirect_uri", dupOther)
+		}
 	case "percent-encoded":
 		form.Set("redirect_uri", "https://"+c.Owner+".example/%63b")
 	case "host-case":
